@@ -1,18 +1,31 @@
 #!/usr/bin/env python3
 """tools/seed_recheck.py <seed-name> <check>... : re-run checks against an already stored seeded change and record the
-result under "after_strengthening" in its meta.json"""
-import json, subprocess, sys, os
+result under "after_strengthening" in its meta.json.  With SEED_SCRATCH=1 (a long background run is building from
+/repo) the change is applied to a fresh scratch worktree and the checks build from it through VERIF_REPO."""
+import json, subprocess, sys, os, shutil
 name, checks = sys.argv[1], sys.argv[2:]
 d = "/verif/seeded/" + name
 m = json.load(open(d + "/meta.json"))
-assert not subprocess.run("git -C /repo status --porcelain", shell=True, capture_output=True, text=True).stdout.strip(), "/repo dirty"
-subprocess.run("git -C /repo apply %s/patch.diff" % d, shell=True, check=True)
+alt = os.environ.get("SEED_SCRATCH")
+if alt:
+    target = "/tmp/wtv/" + name + "-re"
+    subprocess.run("git -C /repo worktree remove --force %s" % target, shell=True, capture_output=True)
+    subprocess.run("git -C /repo worktree add -q --detach %s HEAD" % target, shell=True, check=True)
+    envp = "VERIF_REPO=%s VERIF_OUT=/tmp/wtv/%s-reout " % (target, name)
+else:
+    target, envp = "/repo", ""
+    assert not subprocess.run("git -C /repo status --porcelain", shell=True, capture_output=True, text=True).stdout.strip(), "/repo dirty"
+subprocess.run("git -C %s apply %s/patch.diff" % (target, d), shell=True, check=True)
 try:
     for c in checks:
-        r = subprocess.run("VERIF_NO_EVIDENCE=1 VERIF_TLC_TIMEOUT=900 ./check %s --tier quick" % c, shell=True, cwd="/verif", capture_output=True, text=True)
+        r = subprocess.run(envp + "VERIF_NO_EVIDENCE=1 VERIF_TLC_TIMEOUT=900 ./check %s --tier quick" % c, shell=True, cwd="/verif", capture_output=True, text=True)
         v = [l for l in r.stdout.splitlines() if l.startswith("VIOLATION")]
         m.setdefault("after_strengthening", {})[c] = {"exit": r.returncode, "violations": len(v)}
         print(name, c, "exit", r.returncode, "violations", len(v))
 finally:
-    subprocess.run("git -C /repo checkout -- .", shell=True)
+    if alt:
+        subprocess.run("git -C /repo worktree remove --force %s" % target, shell=True)
+        shutil.rmtree("/tmp/wtv/%s-reout" % name, ignore_errors=True)
+    else:
+        subprocess.run("git -C /repo checkout -- .", shell=True)
 json.dump(m, open(d + "/meta.json", "w"), indent=1)
